@@ -240,7 +240,13 @@ func runC16(c *run.Ctx) {
 // c16Judge runs the unfocused and the focused analysis of a directory and compares them (the C16 oracle).
 func c16Judge(r *run.CaseResult, dir, focus, class string, hasIngressObjects bool) (*observe.ListResult, *observe.ListResult, map[[2]string]string) {
 	full := observe.List(dir, observe.ListOpts{})
-	foc := observe.List(dir, observe.ListOpts{Focus: focus})
+	// for the namespace/name classes and a quarter of the others the focused result is the analyzer's SECOND analysis of the directory:
+	// the focus an analyzer was created with holds for every analysis it makes
+	twice := class == "nsname" || class == "shared" || rngHash(focus+"/"+class)%4 == 0
+	if twice {
+		r.Ev("focused_result_from_the_second_analysis_of_one_analyzer", 1)
+	}
+	foc := observe.List(dir, observe.ListOpts{Focus: focus, Twice: twice})
 	if full.Panic != "" || foc.Panic != "" {
 		r.Violate("c16.total", "c16.total:any:panic", "a result or an error", "panic: "+full.Panic+foc.Panic, "")
 		return nil, nil, nil
